@@ -1004,7 +1004,7 @@ package restful
 //@ nopanic
 
 //@ func (*RouteBuilder).Build
-//@ props C04 C11 C14
+//@ props C04 C06 C11 C14
 //@ requires b != nil && b.function != nil && TrimRightSlashEnabled
 //@ requires valid: pathCompiles(b.currentPath)
 //@ ensures method: result.Method == b.httpMethod && same(result.Function, b.function) && same(result.Filters, b.filters) && same(result.If, b.conditions) && same(result.Produces, b.produces) && same(result.Consumes, b.consumes)
@@ -2101,6 +2101,31 @@ package restful
 //@ requires c != nil
 //@ modifies c.router
 //@ ensures same(c.router, aRouter)
+//@ nopanic
+
+// registering filters (C06): a filter is added behind the ones registered before it, which keep their order
+//@ func (*Container).Filter
+//@ props C06
+//@ requires c != nil
+//@ modifies c.containerFilters, elems(c.containerFilters)
+//@ ensures appended: len(c.containerFilters) == old(len(c.containerFilters)) + 1 && same(c.containerFilters[old(len(c.containerFilters))], filter)
+//@ ensures kept: forall(0, old(len(c.containerFilters)), func(k int) bool { return same(c.containerFilters[k], old(c.containerFilters[k])) })
+//@ nopanic
+
+//@ func (*WebService).Filter
+//@ props C06
+//@ requires w != nil
+//@ modifies w.filters, elems(w.filters)
+//@ ensures appended: result == w && len(w.filters) == old(len(w.filters)) + 1 && same(w.filters[old(len(w.filters))], filter)
+//@ ensures kept: forall(0, old(len(w.filters)), func(k int) bool { return same(w.filters[k], old(w.filters[k])) })
+//@ nopanic
+
+//@ func (*RouteBuilder).Filter
+//@ props C06
+//@ requires b != nil
+//@ modifies b.filters, elems(b.filters)
+//@ ensures appended: result == b && len(b.filters) == old(len(b.filters)) + 1 && same(b.filters[old(len(b.filters))], filter)
+//@ ensures kept: forall(0, old(len(b.filters)), func(k int) bool { return same(b.filters[k], old(b.filters[k])) })
 //@ nopanic
 
 //@ func (*Response).WriteErrorString
